@@ -84,7 +84,7 @@ abbrev Demo := List (Option Nat) × Bool
 
 /-- the regenerated code runs (closed test): add, duplicate add refused, get, remove, has -/
 def demoRun : Option Demo := do
-  let r : Resources := { resources := ⟨Array.replicate 4 none, 4⟩, registry := () }
+  let r : Resources := { resources := ⟨Array.replicate 4 none, 4⟩, registry := default }
   let r ← Resources.Add r 2#8 (some 7)
   let dup := (Resources.Add r 2#8 (some 9)).isNone
   let (r, g) ← Resources.Get r 2#8
